@@ -156,6 +156,9 @@ def climb_family(tier):
                 continue
             for n in range(0, len(pos) + 2):
                 plist.append(rp(base + (("kw", "parent", (str(n),), False),)))
+                # ... and the key / index the ancestor is held under
+                plist.append(rp(base + (("kw", "parent", (str(n),), False),
+                                        ("kw", "name", (), False))))
             plist.append(rp(base + (("kw", "parent", (), False),)))
             plist.append(rp(base + (("kw", "name", (), False),)))
         if corpus.size(spec) <= 4:
